@@ -146,6 +146,16 @@ def rule_b(ctx):
                        and c.split("::")[-1] not in BORROW_CALLS)
         ctx.check(dec_ok and not other, "C16-B", "%s:affix-verbatim" % fn, t["span"], b.id,
                   "the affix must reach add_inline_text unchanged; transforming calls on the way: %s" % other)
+        # ... and always: writing the affix does not depend on renderer state (inside <pre>, at a block end, ...)
+        conds = []
+        for (a, s2) in b.cdeps_transitive(tbb):
+            _neg, src = b.switch_source(a)
+            if src and src[0] == "discr":
+                continue  # `?` plumbing
+            conds.append(b.term(a)["span"])
+        ctx.check(not conds, "C16-B", "%s:affix-unconditional" % fn, t["span"], b.id,
+                  "the decorator's affix is written only under a condition (%s): where it does not hold, a custom decorator's "
+                  "markup silently disappears" % conds[:2])
     ctx.floor("C16-B", "affix sites", n, 13)
     # strikeout filter placement
     ss = F.one(RTRAIT + "start_strikeout")
